@@ -895,6 +895,60 @@ pub fn observe(toks: &[&str], scratch: &Path) -> String {
     }
 }
 
+/// the API-built values and API histories alone (also run with a DEBUG build of norad and the harness: `debug_assert!`s
+/// and arithmetic-overflow checks only exist there, and `cargo test` users run exactly that build)
+pub fn gen_api(tier: &str, _seed: u64, out: &mut dyn Write) {
+    let scratch = scratch_root().join("c03api");
+    std::fs::create_dir_all(&scratch).unwrap();
+    gen_api_into(tier == "thorough", &scratch, out);
+    // a sample of the document streams as well: the unmutated bases and one mutation of each
+    let mut rng = Rng::new(7);
+    let mut glifs: Vec<Vec<u8>> = vec![GLIF_FULL.as_bytes().to_vec(), GLIF_V1.as_bytes().to_vec()];
+    glifs.extend(read_testdata(&["sample_period.glif", "note.glif", "small_lib.glif", "glifv1.glif", "bom_glif.glif"]));
+    for _ in 0..(if tier == "thorough" { 20_000 } else { 1_500 }) {
+        let base = rng.pick(&glifs).clone();
+        let (kind, doc) = mutate(&mut rng, &base);
+        writeln!(out, "C03 glif {} {} => {}", kind, hex(&doc), run_glif(&doc)).unwrap();
+    }
+    rm_rf(&scratch);
+}
+
+fn gen_api_into(thorough: bool, scratch: &Path, out: &mut dyn Write) {
+    let scratch = scratch.to_path_buf();
+    // API-built values
+    for c in API_CASES {
+        let o = run_api(c, &scratch);
+        writeln!(out, "C03 api {} => {}", c, o).unwrap();
+    }
+    // 4b. option structs at typical and untypical values: WriteOptions (indent character x width x quote style) against
+    //     every writer path that indents by hand
+    for ch in ["s", "t"] {
+        for n in WOPT_COUNTS {
+            for q in ["d", "s"] {
+                for target in ["glyph", "font"] {
+                    if target == "font" && (*n > 300 || (q == "s" && *n % 2 == 1)) {
+                        continue;
+                    }
+                    let c = format!("wopt-{}-{}-{}-{}", ch, n, q, target);
+                    let o = run_api(&c, &scratch);
+                    writeln!(out, "C03 api {} => {}", c, o).unwrap();
+                }
+            }
+        }
+    }
+    // 4c. histories of the object-lib API (lazily created identifiers, emptied libs, taken libs) on every kind of object:
+    //     all sequences up to length 3 (quick) / 4 (thorough) over six operations, with and without an initial identifier
+    for kind in ["a", "g", "c", "p", "m"] {
+        for with_id in ["0", "1"] {
+            for ops in olib_sequences(if thorough { 4 } else { 3 }) {
+                let c = format!("olib-{}-{}-{}", kind, with_id, if ops.is_empty() { "_".to_string() } else { ops });
+                let o = run_api(&c, &scratch);
+                writeln!(out, "C03 api {} => {}", c, o).unwrap();
+            }
+        }
+    }
+}
+
 pub fn gen(tier: &str, seed: u64, out: &mut dyn Write) {
     let scratch = scratch_root().join("c03");
     std::fs::create_dir_all(&scratch).unwrap();
@@ -956,38 +1010,7 @@ pub fn gen(tier: &str, seed: u64, out: &mut dyn Write) {
         let o = run_tree(&base, rel, &kind, &doc, &scratch);
         writeln!(out, "C03 tree {} {} {} => {}", kind, hexs(rel), hex(&doc), o).unwrap();
     }
-    // 4. API-built values
-    for c in API_CASES {
-        let o = run_api(c, &scratch);
-        writeln!(out, "C03 api {} => {}", c, o).unwrap();
-    }
-    // 4b. option structs at typical and untypical values: WriteOptions (indent character x width x quote style) against
-    //     every writer path that indents by hand
-    for ch in ["s", "t"] {
-        for n in WOPT_COUNTS {
-            for q in ["d", "s"] {
-                for target in ["glyph", "font"] {
-                    if target == "font" && (*n > 300 || (q == "s" && *n % 2 == 1)) {
-                        continue;
-                    }
-                    let c = format!("wopt-{}-{}-{}-{}", ch, n, q, target);
-                    let o = run_api(&c, &scratch);
-                    writeln!(out, "C03 api {} => {}", c, o).unwrap();
-                }
-            }
-        }
-    }
-    // 4c. histories of the object-lib API (lazily created identifiers, emptied libs, taken libs) on every kind of object:
-    //     all sequences up to length 3 (quick) / 4 (thorough) over six operations, with and without an initial identifier
-    for kind in ["a", "g", "c", "p", "m"] {
-        for with_id in ["0", "1"] {
-            for ops in olib_sequences(if thorough { 4 } else { 3 }) {
-                let c = format!("olib-{}-{}-{}", kind, with_id, if ops.is_empty() { "_".to_string() } else { ops });
-                let o = run_api(&c, &scratch);
-                writeln!(out, "C03 api {} => {}", c, o).unwrap();
-            }
-        }
-    }
+    gen_api_into(thorough, &scratch, out);
     // 5. deep nesting, each in a child process
     let depths: &[usize] = if thorough { &[100, 1000, 5000, 20000, 100000, 400000] } else { &[100, 2000, 20000, 100000] };
     for s in DEEP_STREAMS {
